@@ -14,7 +14,14 @@ _OC = {'self.optic.paraxial.EPL': 'num', 'self.optic.paraxial.EPD': 'num', 'self
 _TY = {'self.optic.object_surface': 'obj', 'self.optic.surface_group.positions': 'list',
        'self.optic.field_type': 'str', 'self.optic.obj_space_telecentric': 'bool'}
 
-MODULE_DEPS = {'C07K': ['RealRays']}
+from py2coq_c03 import C03Kernel      # list primitives (np.min over a slice, builtin min/max) of tools/py2coq_c03.py
+_L = dict(kclass=C03Kernel, requires=['Num.OpsC03'])
+_TYL = {'self.optic.object_surface': 'obj', 'self.optic.object_surface.is_infinite': 'bool',
+        'self.optic.field_type': 'str', 'self.optic.obj_space_telecentric': 'bool',
+        'self.optic.surface_group.positions': 'list'}
+_PX = {'self.optic.paraxial.EPL': 'num', 'self.optic.paraxial.EPD': 'num'}
+
+MODULE_DEPS = {'C07K': ['RealRays'], 'C07L': ['Standard']}
 MODULES = {
     'C07K': [
         # CoordinateSystem.localize / globalize acting on REAL rays (translation + the three conditional rotations)
@@ -33,5 +40,13 @@ MODULES = {
         # if/elif without else, which the translator refuses: they are hand-modelled in Model/M_C07.v)
         dict(name='c07_origins_inf', file=RG, cls='RayGenerator', func='_get_ray_origins', types=_TY,
              static={'obj.is_infinite': 'true'}, opaque_calls=_OC),
+    ],
+    # the launch point of a ray: where the path length starts counting (infinite and finite objects, both field types)
+    'C07L': [
+        dict(name='c07_z_offset', file=RG, cls='RayGenerator', func='_get_starting_z_offset', types=dict(_TYL),
+             opaque_calls=dict(_PX), **_L),
+        dict(name='c07_origins', file=RG, cls='RayGenerator', func='_get_ray_origins', types=dict(_TYL),
+             opaque_calls=dict(_PX),
+             calls={'self._get_starting_z_offset': 'c07_z_offset', 'obj.geometry.sag': 'std_sag'}, **_L),
     ],
 }
